@@ -26,7 +26,7 @@ namespace Viv.Props.C10Src
 open Viv.Py Viv.Clock
 
 inductive KFn where
-  | active | nextTimes | union (a : List Nat) | minOf (l : List (Nat × Int)) | viewGet | viewUpdate | pipeline | pdIndex
+  | len | active | nextTimes | union (a : List Nat) | minOf (l : List (Nat × Int)) | viewGet | viewUpdate | pipeline | pdIndex
 
 /-- the Python objects `SimulationClock.step_forward` touches -/
 inductive KV where
@@ -55,7 +55,8 @@ structure St where
 
 abbrev M := SM St
 
-def kGlobal (n : String) : M KV := if n == "pd" then pure .pdMod else throw "NameError"
+def kGlobal (n : String) : M KV :=
+  if n == "pd" then pure .pdMod else if n == "len" then pure (.fn .len) else throw "NameError"
 
 def kGetAttr (o : KV) (a : String) : M KV := match o with
   | .self => do
@@ -97,6 +98,7 @@ def setCol (col : String) (frame : List SimClk) (vals : List Int) : List SimClk 
   List.zipWith (fun s v => if col == "step_size" then { s with step := v } else { s with next := v }) frame vals
 
 def kPrim (mods : Nat → List (Option Nat)) (f : KFn) (args : List KV) : M KV := match f, args with
+  | .len, [.idx l] => pure (.int l.length)
   | .union a, [.idx b] => pure (.idx (a ++ b.filter fun i => !a.contains i))
   | .nextTimes, [.idx ids] => do
     let st ← get
@@ -148,11 +150,14 @@ def kBin (op : String) (l r : KV) : M KV := match l, r with
 
 def kCmp (op : String) (l r : KV) : M KV := match l, r with
   | .series l, .time t => if op == "LtE" then pure (.mask (l.map fun p => decide (p.2 ≤ t))) else throw "TypeError"
+  | .int a, .int b =>
+    if op == "Gt" then pure (.bool (decide (a > b))) else if op == "NotEq" then pure (.bool (a != b)) else throw "TypeError"
   | _, _ => throw "TypeError"
 
 def kTruthy : KV → M Bool
   | .none => pure false
   | .bool b => pure b
+  | .int i => pure (i != 0)
   | _ => pure true
 
 def kworldWith (mods : Nat → List (Option Nat)) (callee : Option (World M KV)) : World M KV where
@@ -364,16 +369,20 @@ theorem stepForward_run (mods : Nat → List (Option Nat)) (c : Clock) (fr : Lis
   generalize kworldWith mods Option.none = w1 at hact ⊢
   pystep [kworldWith, kGetAttr, kBin, kSetAttr]
   by_cases hs : c.sims = []
-  · pystep [kworldWith, kGetAttr, kTruthy, hs]
+  · pystep [kworldWith, kGlobal, kGetAttr, kPrim, kCmp, kTruthy, hs]
     exact ⟨fr, by simp [stepForward, hs, kworldWith]⟩
   · have he : (c.sims.map (·.id)).isEmpty = false := by simpa using hs
+    have hlen : 0 < c.sims.length := List.length_pos_iff.mpr hs
+    have hlen' : c.sims.length ≠ 0 := by omega
+    have hlenI : ((c.sims.length : Int) != 0) = true := by simp [hlen']
     rw [runM_block_cons, evalStmt]
     simp only [runM_bind]
-    conv in (runM (evalExpr _ _ _) _) => simp [evalExpr, kworldWith, kGetAttr, kTruthy, he]
+    conv in (runM (evalExpr _ _ _) _) =>
+      simp [evalExpr, evalArgs, evalKws, kworldWith, kGlobal, kGetAttr, kPrim, kCmp, kTruthy, he, hlen, hlen']
     dsimp only
-    conv in (runM ((kworldWith mods (some w1)).truthy _) _) => simp [kworldWith, kTruthy]
+    conv in (runM ((kworldWith mods (some w1)).truthy _) _) => simp [kworldWith, kTruthy, hlen, hlen']
     dsimp only
-    simp only [if_true]
+    try simp only [hlenI, if_true]
     pystep [kworldWith, kGetAttr, kPrim, hact]
     generalize huidx : (List.map (fun x => x.id) (activeAt _ _) ++ List.filter _ c.snooze) = uidx
     have hU : ∀ s ∈ c.sims, uidx.contains s.id = needsUpdate c (c.now + c.step) s := by
@@ -451,7 +460,7 @@ theorem stepForward_run (mods : Nat → List (Option Nat)) (c : Clock) (fr : Lis
       dsimp only
       conv in (runM ((kworldWith mods (some w1)).truthy _) _) => simp [kworldWith, kTruthy]
       dsimp only
-      simp only [if_true]
+      try simp only [if_true]
       pystep [kworldWith, kGetAttr, kPrim, kSetItem, hF]
       simp only [Function.comp_def]
       rw [setCol_step]
@@ -532,16 +541,22 @@ theorem moveToEnd_run (mods : Nat → List (Option Nat)) (callee : Option (World
   simp only [Gen.Src.clockMoveToEnd]
   cases he : ids.isEmpty with
   | true =>
-    pystep [kworldWith, kGetAttr, kTruthy, he]
+    have hnil : ids = [] := by simpa using he
+    pystep [kworldWith, kGlobal, kGetAttr, kPrim, kCmp, kTruthy, he, hnil]
     simp [moveToEnd, he, kworldWith]
   | false =>
+    have hne : ids ≠ [] := by simpa using he
+    have hlen : 0 < ids.length := List.length_pos_iff.mpr hne
+    have hlen' : ids.length ≠ 0 := by omega
+    have hlenI : ((ids.length : Int) != 0) = true := by simp [hlen']
     rw [runM_block_cons, evalStmt]
     simp only [runM_bind]
-    conv in (runM (evalExpr _ _ _) _) => simp [evalExpr, kworldWith, kGetAttr, kTruthy, he]
+    conv in (runM (evalExpr _ _ _) _) =>
+      simp [evalExpr, evalArgs, evalKws, kworldWith, kGlobal, kGetAttr, kPrim, kCmp, kTruthy, he, hne, hlen, hlen']
     dsimp only
-    conv in (runM ((kworldWith mods callee).truthy _) _) => simp [kworldWith, kTruthy]
+    conv in (runM ((kworldWith mods callee).truthy _) _) => simp [kworldWith, kTruthy, hne, hlen, hlen']
     dsimp only
-    simp only [if_true]
+    try simp only [hlenI, if_true]
     pystep [kworldWith, kGetAttr, kPrim, kSetAttr]
     simp [moveToEnd, he, kworldWith]
 
